@@ -238,7 +238,7 @@ def same_outcome(res, so, ro):
         res.status = 'inconclusive'; res.notes.append('symbolic engine: ' + so[1])
         return False
     if so[0] != ro[0] or (so[0] == 'raise' and so[1] != ro[1]):
-        res.status = 'error'; res.trace = 'symbolic outcome %r differs from real torch outcome %r' % (so[:3], ro[:3])
+        res.status = 'error'; res.trace = 'symbolic outcome %r differs from real torch outcome %r' % (core.brief(so), core.brief(ro))
         return False
     return True
 
